@@ -45,7 +45,7 @@ func TestProbe(t *testing.T) {
 	if err != nil {
 		t.Fatal(err)
 	}
-	rep := vh.NewReport("c20-probe", "probe")
+	rep := vh.NewReport("c20-probe", "one scenario (cfg, counted fault script) re-executed on the real Controller")
 	synctest.Test(t, func(t *testing.T) {
 		w := NewWorld(pool, in.Cfg, in.Faults, rec, rep, 0)
 		w.emit(map[string]any{"ev": "Reset", "cfg": in.Cfg})
@@ -55,14 +55,19 @@ func TestProbe(t *testing.T) {
 		}
 		b, _ := json.Marshal(res)
 		fmt.Printf("RESULT %s kinds=%s\n", b, kindsKey(w))
+		rep.Eval(kindsKey(w))
 	})
 	rec.Close()
 	for _, v := range rep.Violations {
 		fmt.Printf("VIOLATION %s: %s\n", v.Fingerprint, v.What)
 	}
-	rep.Write()
-	b, _ := os.ReadFile(vh.OutDir() + "/traces.ndjson")
-	fmt.Print(string(b))
+	if err := rep.Write(); err != nil {
+		t.Fatal(err)
+	}
+	if os.Getenv("VERIF_PROBE_PRINT") != "" {
+		b, _ := os.ReadFile(vh.OutDir() + "/traces.ndjson")
+		fmt.Print(string(b))
+	}
 }
 
 // randomScenario draws a scenario and a counted fault script.
@@ -128,6 +133,15 @@ func randomScenario(rng interface{ Intn(int) int }, n int) (Cfg, Faults, int) {
 		if c.Src0+c.Growth > 0 {
 			start = rng.Intn(c.Src0 + c.Growth)
 		}
+		if rng.Intn(4) > 0 { // aim at a batch the first pass will really see
+			first := 0
+			if c.Cont || c.Start < 0 {
+				first = c.DestInt
+			}
+			if n := (c.Src0 - first + c.Batch - 1) / c.Batch; n > 0 {
+				pass, start = 1, first+c.Batch*rng.Intn(n)
+			}
+		}
 		key := fmt.Sprintf("%d:%d", pass, start)
 		switch rng.Intn(12) {
 		case 0, 1:
@@ -167,13 +181,6 @@ func randomScenario(rng interface{ Intn(int) int }, n int) (Cfg, Faults, int) {
 	return c, f, restarts
 }
 
-func cloneFaults(f Faults) Faults {
-	b, _ := json.Marshal(f)
-	var g Faults
-	_ = json.Unmarshal(b, &g)
-	g.init()
-	return g
-}
 
 // TestTrace runs random scenarios on the real Controller and records the traces; the driver has
 // MigrillianTrace.tla validate traces.ndjson.  Runs in which the oracle-free monitor saw a quota reply
@@ -195,8 +202,10 @@ func TestTrace(t *testing.T) {
 	rep := vh.NewReport("c20-trace", "random scenarios (source sizes/growth/unparsable entries, destination empty/partial/full, batch, fetchers, submitters, one-shot/continuous, Run/RunWhenMaster, honest/forked source, counted fault scripts) on the real Controller under synctest virtual time and -race; every AddSequencedLeaves request and the final destination map judged index by index against the source by reference code; traces validated by MigrillianTrace.tla; non-trivial = distinct set of observed behaviour kinds")
 	rng := vh.Rand(2020)
 	nq := 0
+	scen := map[string]any{}
 	for i := 0; i < n; i++ {
 		c, f, restarts := randomScenario(rng, i)
+		scen[fmt.Sprint(i)] = map[string]any{"cfg": c, "faults": f, "restarts": restarts}
 		tmp, err := vh.NewRecorder(fmt.Sprintf("trace-%d.tmp", i))
 		if err != nil {
 			t.Fatal(err)
@@ -241,6 +250,9 @@ func TestTrace(t *testing.T) {
 	}
 	rec.Close()
 	recQ.Close()
+	if b, err := json.Marshal(scen); err == nil {
+		_ = os.WriteFile(vh.OutDir()+"/scenarios.json", b, 0o644)
+	}
 	rep.Extra["events"] = rec.N + recQ.N
 	rep.Extra["traces_quota_aborted"] = nq
 	if err := rep.Write(); err != nil {
